@@ -7631,6 +7631,17 @@ MHD_connection_handle_idle (struct MHD_Connection *connection)
     return MHD_YES;
   }
   MHD_connection_update_event_loop_info (connection);
+  if (MHD_CONNECTION_CLOSED == connection->state)
+  {
+    /* The connection has been closed while the next wait state was
+       computed (no space left in the read buffer). Move it to the cleanup
+       list now: nothing is watched for a closed connection, so without
+       this the daemon would report "no timeout" and the connection would
+       stay around until unrelated activity makes the loop run again. */
+    cleanup_connection (connection);
+    connection->in_idle = false;
+    return MHD_NO;
+  }
   ret = MHD_YES;
 #ifdef EPOLL_SUPPORT
   if ( (! connection->suspended) &&
